@@ -5,6 +5,7 @@ package main
 import (
 	"fmt"
 	"strconv"
+	"strings"
 	"unicode/utf8"
 
 	"github.com/gobwas/ws/wsutil"
@@ -26,6 +27,28 @@ func init() {
 		}
 		return fmt.Sprintf("%d %s valid=%d accepted=%d gv=%d", total, classify(err), b2i(u.Valid()), u.Accepted(), b2i(utf8.Valid(data)))
 	}
+	// u8r <hex1/hex2/...> <k> <bufsizes> <fin>: ONE UTF8Reader, Reset onto each stream in turn and
+	// read to its end: the verdict on a stream depends on that stream only.
+	ops["u8r"] = func(a []string) string {
+		k, _ := strconv.Atoi(a[1])
+		sizes := ints(a[2])
+		u := wsutil.NewUTF8Reader(nil)
+		var items []string
+		for _, hexs := range strings.Split(a[0], "/") {
+			data := unhx(strings.TrimPrefix(hexs, "-"))
+			src, _ := mkReader(data, k, a[3])
+			u.Reset(src)
+			total := 0
+			var err error
+			for i := 0; i < 100000 && err == nil; i++ {
+				var n int
+				n, err = u.Read(make([]byte, sizes[i%len(sizes)]))
+				total += n
+			}
+			items = append(items, fmt.Sprintf("%d,%s,valid=%d,accepted=%d,gv=%d", total, classify(err), b2i(u.Valid()), u.Accepted(), b2i(utf8.Valid(data))))
+		}
+		return strings.Join(items, "|")
+	}
 	register("C07", genC07a)
 }
 
@@ -34,6 +57,33 @@ func genC07a(tier string, r *rng) {
 	fins := []string{"E", "E", "E", "Ed", "F"}
 	emit1 := func(p []byte, i int) {
 		run(fmt.Sprintf("u8 %s %d %s %s", hx(p), i%4, bufsets[i%len(bufsets)], fins[i%len(fins)]))
+	}
+	// one reader Reset from stream to stream: every ordered pair of samples ending in every DFA
+	// state (mid-sequence, rejected, clean), then random runs
+	{
+		ends := []string{"68", "c3", "e2", "e282", "f0", "f09f", "f09f98", "e0", "ed", "f4", "ff", "c328", "eda0", "d0b0", "-"}
+		i := 0
+		for _, x := range ends {
+			for _, y := range []string{"68656c6c6f", "d081", "98807a", "ac", "a0", "80", "-", "f09f9880", "e282"} {
+				i++
+				run(fmt.Sprintf("u8r %s/%s/%s %d %s %s", x, y, x, i%3, bufsets[i%len(bufsets)], fins[i%2*4]))
+			}
+		}
+		n := 200
+		if tier != "quick" {
+			n = 5000
+		}
+		for j := 0; j < n; j++ {
+			var parts []string
+			for c := 0; c < 2+r.intn(3); c++ {
+				e := ends[r.intn(len(ends))]
+				if r.intn(2) == 0 && e != "-" {
+					e = hx(r.bytes(1+r.intn(3))) + e
+				}
+				parts = append(parts, e)
+			}
+			run(fmt.Sprintf("u8r %s %d %s %s", strings.Join(parts, "/"), r.intn(4), bufsets[r.intn(len(bufsets))], fins[r.intn(len(fins))]))
+		}
 	}
 	// all strings of length <= 2
 	emit1(nil, 0)
